@@ -257,6 +257,20 @@ def check_handle(P, R):
         ok = all(g.must_pass(g.entry, n, bn) for n in cnodes)
         R.ob('C03.b', f, c, ok, text=f'before_request precedes {short(c, 40)}', detail='' if ok else 'routing / handler can run before the before_request hooks',
              key_extra='order')
+    # every hook is registered through add_hook (which knows which hooks run in reverse order): nothing else adds to the hook lists
+    cls_ = P.cls(f'{OM}:Ombott')
+    for mname_, m_ in cls_.methods.items():
+        if mname_ in ('add_hook', 'remove_hook', '_hooks') or isinstance(m_.node, ast.Lambda):
+            continue
+        aliases = {t.id for st_ in ast.walk(m_.node) if isinstance(st_, ast.Assign) and '_hooks' in src(st_.value) and 'self' in src(st_.value)
+                   and not any(isinstance(x_, ast.Call) for x_ in ast.walk(st_.value)) for t in st_.targets if isinstance(t, ast.Name)}
+        for c_ in ast.walk(m_.node):
+            if isinstance(c_, ast.Call) and call_attr(c_) in ('append', 'insert', 'extend') and (
+                    ('_hooks' in src(c_.func.value) and 'self' in src(c_.func.value)) or (isinstance(c_.func.value, ast.Name) and c_.func.value.id in aliases)):
+                R.ob('C03.b', m_, c_, False, text=f'`{short(c_)}` in {mname_}(): hooks are registered through add_hook only', detail=
+                     f'`{short(c_)}` puts a hook into the list directly: add_hook() inserts the hooks of the reversed set (after_request) at the front, this path appends them - '
+                     f'after-request hooks registered through {mname_}() run in registration order instead of the reverse',
+                     why='after-request hooks run once each in reverse order', key_extra='direct-hook-store')
     # add_hook / emit
     ah = P.func(f'{OM}:Ombott.add_hook')
     cls_ = P.cls(f'{OM}:Ombott')
@@ -402,6 +416,14 @@ def check_cast(P, R):
                  f'`{short(st_)}` sets Content-Length from `{short(st_.value)}`, not from the bytes handed to the server: for a file-like result the size of the file ignores '
                  f'the position the handler left it at (100 bytes sent, 104 announced), a pipe or socket reports 0',
                  why='a Content-Length set by the framework equals the number of bytes returned', key_extra='other-length')
+    # ... and the handler of that try converts, whatever the configuration: a handler failure at the first next() of a generator is a 500 like one in a plain
+    # handler (which _handle converts without asking `catchall`)
+    for h_ in [h_ for h_ in ast.walk(f.node) if isinstance(h_, ast.ExceptHandler) and dotted(h_.type) == 'Exception']:
+        rs_ = [x_ for st_ in h_.body for x_ in ast.walk(st_) if isinstance(x_, ast.Raise)]
+        R.ob('C03.c', f, rs_[0] if rs_ else h_, not rs_, text='_cast: `except Exception` around the first chunk converts to a 500, it never re-raises', detail='' if not rs_ else
+             f'`{short(rs_[0])}` in the handler that turns a failure at the first next() into a 500: with that configuration (catchall off) a generator handler that fails before its '
+             f'first chunk escapes to the server without start_response having been called, while the same failure in a plain handler is answered 500',
+             why='handler failures become a 500 response instead of escaping to the server', key_extra='cast-handler-raises')
     # ---- c (part): every step that runs handler code while peeking (iter(out), next(iout)) sits in the try that turns failures into responses
     from .c17 import _caught
     peeks = [c for c in walk_shallow(f.node) if isinstance(c, ast.Call) and dotted(c.func) in ('iter', 'next') and c.args]
